@@ -233,7 +233,9 @@ pub fn sample_set(rng: &mut Rng, p: &Params, shape: &Shape) -> SampleSet {
     }
     let mut samples = Vec::new();
     for si in 0..ns {
-        let sname = if pansn { format!("S{:03}#{}", si, si % 2) } else { format!("smp{:03}", si) };
+        // names are unique but their order of appearance is not the lexicographic one
+        let tag = if ns <= 9 { [9usize, 10, 2, 33, 1, 100, 5, 77, 8][si] } else { si };
+        let sname = if pansn { format!("S{}#{}", tag, si % 2) } else { format!("smp{}", tag) };
         let mut contigs: Vec<(String, Vec<u8>)> = Vec::new();
         if pack_stress && si > 4 && rng.chance(1, 5) {
             // exact copy of an earlier (diverged) sample under new names
